@@ -39,13 +39,23 @@ def pkVal (l : List (PKTrace Nat Nat Nat)) : Val :=
 
 def numericOf (l : List Nat) : Nat → Bool := fun i => l.contains i
 
-/-- `C20.pd_add_data legacy dropna nanIn rows numericIds observable` -/
+/-- `C20.pd_add_data rows observable` — the code as it is -/
 def pdAdd : Op
+  | [rowsV, obsV] => do
+    let rows ← parseRows rowsV
+    let obs ← optNat obsV
+    match (pdAddData rows obs).1 with
+    | .error e => some [errVal (errName e)]
+    | .ok tr => some [.str "ok", pdVal tr]
+  | _ => none
+
+/-- `C20.pd_add_data_legacy fmtLegacy dropna nanIn rows numericIds observable` — pre-fix variants -/
+def pdAddLegacy : Op
   | [.bool legacy, .bool dropna, .bool nanIn, rowsV, numV, obsV] => do
     let rows ← parseRows rowsV
     let num ← numV.nats?
     let obs ← optNat obsV
-    match (pdAddData legacy dropna nanIn (numericOf num) rows obs).1 with
+    match (pdAddDataLegacy legacy dropna nanIn (numericOf num) rows obs).1 with
     | .error e => some [errVal (errName e)]
     | .ok tr => some [.str "ok", pdVal tr]
   | _ => none
@@ -133,22 +143,42 @@ def parsePred (v : Val) : Option (List (PRow Nat Nat Float)) := do
     | .list [o, t, x] => do some ⟨← optNat o, ← optNat t, ← optFlt x⟩
     | _ => none)
 
-/-- `C20.residual readonly fmtLegacy numericIds meas pred observable individual showRes showRel` -/
+def rtVal (tr : List (RTrace Nat Float)) : Val :=
+  .list (tr.map (fun t => .list [optNatVal t.id, .list (t.x.map optFltVal), .list (t.y.map optFltVal)]))
+
+/-- `C20.residual meas pred observable individual showRes showRel` — the code as it is,
+    then the figure the property describes (`specResid`) for the same observable when the call returns -/
 def residual : Op
+  | [measV, predV, obsV, indV, .bool sres, .bool srel] => do
+    let meas ← parseMeas measV
+    let pred ← parsePred predV
+    let obs ← optNat obsV
+    let ind ← optNat indV
+    match (residualAddData meas pred obs ind sres srel).1 with
+    | .error e => some [errVal (errName e)]
+    | .ok tr =>
+      let sp := match specPredObs pred obs with
+        | some o => rtVal (specResid meas pred o ind sres srel)
+        | none => .none
+      some [.str "ok", rtVal tr, sp]
+  | _ => none
+
+/-- `C20.residual_legacy readonly fmtLegacy numericIds meas pred observable individual showRes showRel` -/
+def residualLegacy : Op
   | [.bool ro, .bool fl, numV, measV, predV, obsV, indV, .bool sres, .bool srel] => do
     let num ← numV.nats?
     let meas ← parseMeas measV
     let pred ← parsePred predV
     let obs ← optNat obsV
     let ind ← optNat indV
-    match (residualAddData ro fl (numericOf num) meas pred obs ind sres srel).1 with
+    match (residualAddDataLegacy ro fl (numericOf num) meas pred obs ind sres srel).1 with
     | .error e => some [errVal (errName e)]
-    | .ok tr => some [.str "ok", .list (tr.map (fun t =>
-        .list [optNatVal t.id, .list (t.x.map optFltVal), .list (t.y.map optFltVal)]))]
+    | .ok tr => some [.str "ok", rtVal tr]
   | _ => none
 
 def ops : List (String × Op) :=
-  [("C20.pd_add_data", pdAdd), ("C20.pk_add_data", pkAdd), ("C20.spec", spec),
+  [("C20.pd_add_data", pdAdd), ("C20.pd_add_data_legacy", pdAddLegacy), ("C20.pk_add_data", pkAdd),
+   ("C20.spec", spec), ("C20.residual_legacy", residualLegacy),
    ("C20.simulation", simulation), ("C20.scatter", scatter), ("C20.band", band),
    ("C20.admissible", admissibleOp), ("C20.bands", bands), ("C20.residual", residual)]
 
